@@ -55,6 +55,32 @@ fn ss_identity_chain(s: &mut Session, cr: &mut Crafter, rng: &mut Rng, cipher: &
     s.mark_nontrivial();
 }
 
+/// the same for datagrams: a client with a chain of identity keys writes one identity header per key, all of them in clear
+/// between the separate header and the sealed body (each: AES under that hop's key of the next key's hash XOR the
+/// separate header); compared with the model byte for byte and checked hop by hop with the Spec side
+fn ss_udp_identity_chain(s: &mut Session, cr: &mut Crafter, rng: &mut Rng, cipher: &'static str) {
+    use base64ct::{Base64, Encoding};
+    s.begin_case(&format!("ss-udp-identity-chain:{}", cipher));
+    let n = key_len(cipher);
+    for hops in [1usize, 2, 3] {
+        let keys: Vec<String> = (0..=hops).map(|_| Base64::encode_string(&rng.bytes(n))).collect();
+        let uc = s.fresh("uc");
+        if s.run(&format!("ssu.client {} cipher={} password={}", uc, cipher, keys.join(":"))) != "ok" {
+            s.oracle_fail(&format!("ss-udp-identity-chain:{}", cipher), "a password with several identity keys is refused");
+            continue;
+        }
+        for payload in [rng.bytes(8), vec![]] {
+            let w = crate::c02::timed(s, &format!("ssu.cenc {} addr={} payload={}", uc, random_addr(rng), if payload.is_empty() { "-".to_owned() } else { hex(&payload) }));
+            let Some(w) = unhex(&w) else { continue };
+            let a = spec(s, cr, &format!("spec.ssu.eih.chain cipher={} password={} wire={}", cipher, keys.join(":"), hex(&w[..(16 + 16 * hops).min(w.len())])));
+            if a != "ok" {
+                s.oracle_fail(&format!("ss-udp-identity-chain:{}", cipher), &format!("a datagram of a client with {} identity keys: a hop does not find its identity header in clear behind the separate header: {}", hops, a));
+            }
+        }
+    }
+    s.mark_nontrivial();
+}
+
 fn ss_code_to_spec(s: &mut Session, cr: &mut Crafter, rng: &mut Rng, cipher: &'static str, want_user: bool) {
     s.begin_case(&format!("ss-emit:{}:{}", cipher, if want_user { "eih" } else { "psk" }));
     let cfg = random_cfg(rng, cipher, want_user);
@@ -463,6 +489,7 @@ pub fn generate(s: &mut Session, tier: &str, rng: &mut Rng) {
             }
             if eih(cipher) {
                 ss_identity_chain(s, &mut cr, rng, cipher);
+                ss_udp_identity_chain(s, &mut cr, rng, cipher);
             }
         }
         for cipher in ["aes-128-gcm", "chacha20-poly1305"] {
